@@ -81,6 +81,7 @@ type c14Case struct {
 	Members    []c14Member `json:"members"`
 	Extras     []c14Extra  `json:"extras,omitempty"`
 	NoCurGroup bool        `json:"no_current_group,omitempty"` // tss group 1 exists but bandtss has no current group
+	MaxGS      uint64      `json:"max_group_size,omitempty"`   // tss MaxGroupSize as governance left it (0 = default 20); it only limits NEW groups
 	Blocks     []c14Block  `json:"blocks"`
 }
 
@@ -150,6 +151,9 @@ func genC14(rt *rapid.T) c14Case {
 		c.Extras = append(c.Extras, c14Extra{Kind: gen.OneOf(rt, "ekind", "g2", "de")})
 	}
 	c.NoCurGroup = nm > 0 && gen.Chance(rt, "nocur", 1, 10)
+	if nm > 1 && gen.Chance(rt, "maxgs", 1, 3) {
+		c.MaxGS = uint64(gen.OneOf(rt, "maxgsv", 1, 2, nm-1, nm-1, nm, 20))
+	}
 
 	nb := 1 + gen.Pick(rt, "nblocks", 1, 4, 4, 2, 1) // block 2 never has oracle-active validators, so usually >= 2 blocks
 	actMode := gen.Pick(rt, "actmode", 6, 2, 1)      // most / all / none
@@ -445,6 +449,12 @@ func runC14(c c14Case) *pbt.Verdict {
 		GenesisTime: genesisTime, NumAccounts: nu, Validators: vals, Balance: toSDK(balance),
 		Oracle: &op, Bandtss: &bp, TSSGenesis: tg, BandtssGen: bg, MintOff: true, CommunityTax: &taxDec,
 	}
+	if c.MaxGS > 0 {
+		// the limit applies to group creation only: an existing (larger) group keeps all its members
+		tp := tsstypes.DefaultParams()
+		tp.MaxGroupSize = c.MaxGS
+		cfg.TSS = &tp
+	}
 	if !pool0.IsZero() {
 		cfg.ExtraBalance = map[string]sdk.Coins{feeCollectorAddr: toSDK(pool0)}
 	}
@@ -470,6 +480,12 @@ func runC14(c c14Case) *pbt.Verdict {
 	}
 
 	st := &caseStats{classes: map[string]bool{}}
+	if c.MaxGS > 0 {
+		st.classes["max-group-size-param-set"] = true
+		if int(c.MaxGS) < len(c.Members) {
+			st.classes["current-group-larger-than-max-group-size"] = true
+		}
+	}
 	ck := &checker{c: c, v: v, ch: ch, tax: tax, md: md, st: st, nm: nm, ne: ne}
 
 	// ---- block 1 (executed inside sim.New): pre-state is the genesis the harness itself configured ------
@@ -683,23 +699,29 @@ func (k *checker) checkModelSync() {
 	ctx := k.ch.Ctx()
 	for i, a := range k.ch.Vals {
 		if got := k.ch.App.OracleKeeper.GetValidatorStatus(ctx, a.Val).IsActive; got != k.md.oracleActive[i] {
-			k.v.Failf("harness/model-desync", "validator %d oracle-active: chain %v model %v", i, got, k.md.oracleActive[i])
+			k.v.Failf("harness", "validator %d oracle-active: chain %v model %v", i, got, k.md.oracleActive[i])
 		}
 	}
 	cur := k.ch.App.BandtssKeeper.GetCurrentGroup(ctx).GroupID
 	for u := 0; u < k.nm+k.ne; u++ {
 		q := k.ch.App.TSSKeeper.GetDEQueue(ctx, k.ch.Users[u].Addr)
 		if int(q.Tail-q.Head) != k.md.deCount[u] {
-			k.v.Failf("harness/model-desync", "user %d DE count: chain %d model %d", u, q.Tail-q.Head, k.md.deCount[u])
+			k.v.Failf("harness", "user %d DE count: chain %d model %d", u, q.Tail-q.Head, k.md.deCount[u])
 		}
 		in, act := false, false
 		if cur != 0 {
-			if m, err := k.ch.App.TSSKeeper.GetMemberByAddress(ctx, cur, k.ch.Users[u].Addr.String()); err == nil {
+			// point read by member id (genesis members of group 1 are users 0..nm-1 with ids 1..nm): the sync check must
+			// not depend on the member ITERATION the reward code itself uses
+			if u < k.nm && cur == 1 {
+				if m, err := k.ch.App.TSSKeeper.GetMember(ctx, cur, tss.MemberID(u+1)); err == nil && m.Address == k.ch.Users[u].Addr.String() {
+					in, act = true, m.IsActive
+				}
+			} else if m, err := k.ch.App.TSSKeeper.GetMemberByAddress(ctx, cur, k.ch.Users[u].Addr.String()); err == nil {
 				in, act = true, m.IsActive
 			}
 		}
 		if in != k.md.inCur[u] || (in && act != k.md.tssActive[u]) {
-			k.v.Failf("harness/model-desync", "user %d membership: chain in=%v active=%v model in=%v active=%v", u, in, act, k.md.inCur[u], k.md.tssActive[u])
+			k.v.Failf("harness", "user %d membership: chain in=%v active=%v model in=%v active=%v", u, in, act, k.md.inCur[u], k.md.tssActive[u])
 		}
 	}
 }
